@@ -205,8 +205,31 @@ func (vc *VC) heapGet(st *State, name string) string {
 	if !vc.declared[n] {
 		vc.declared[n] = true
 		vc.declare(n, "(Array Ref "+vc.heapSort[name]+")")
+		vc.typedHeapAxiom(name, n)
 	}
 	return n
+}
+
+// typedHeapAxiom: every value stored in a fresh (unconstrained) heap version
+// satisfies the typing invariant of its Go type.
+func (vc *VC) typedHeapAxiom(name, version string) {
+	t := vc.heapType[name]
+	if t == nil {
+		return
+	}
+	switch {
+	case strings.HasPrefix(name, "HA_"):
+		el := &Term{"(select (select " + version + " r) i)", vc.sortOf(t), t}
+		if f := vc.typingFact(el); f != "true" {
+			vc.assume("(forall ((r Ref) (i " + vc.idxSort() + ")) (! " + f + " :pattern (" + el.S + ")))")
+		}
+	case strings.HasPrefix(name, "HM_"):
+	default:
+		el := &Term{"(select " + version + " r)", vc.sortOf(t), t}
+		if f := vc.typingFact(el); f != "true" {
+			vc.assume("(forall ((r Ref)) (! " + f + " :pattern (" + el.S + ")))")
+		}
+	}
 }
 
 func (vc *VC) heapSet(st *State, name, term string) {
@@ -223,6 +246,7 @@ func (vc *VC) heapSet(st *State, name, term string) {
 func (vc *VC) havocHeapVar(st *State, name string) {
 	n := vc.fresh(name)
 	vc.declare(n, "(Array Ref "+vc.heapSort[name]+")")
+	vc.typedHeapAxiom(name, n)
 	st.heap[name] = n
 	vc.written[name] = true
 }
@@ -453,7 +477,7 @@ func (vc *VC) indexAddr(st *State, x Val, xT types.Type, idx *Term, pos token.Po
 		s := x.(*Term)
 		vc.boundsCheck(st, i, "(s-len "+s.S+")", pos, "slice")
 		return &Loc{HV: vc.arrHV(u.Elem()), Ref: "(s-ref " + s.S + ")",
-			Path: []pathStep{{isIdx: true, idx: vc.add("(s-off "+s.S+")", i)}}, T: u.Elem()}
+			Path: []pathStep{{isIdx: true, idx: vc.at("(s-off "+s.S+")", i)}}, T: u.Elem()}
 	}
 	unsup("indexAddr on %s", xT)
 	return nil
